@@ -471,6 +471,8 @@ StepImport(S, m, c) ==
   ELSE LET p == Package(x.v) IN
        IF ~p.ok THEN Fail(m, Err("config", 0, "", "", "cannot import"))
        ELSE IF x.v \in m.comps THEN m
+       ELSE IF \E a \in DOMAIN p.impl \ {"~none~"} : a \notin DOMAIN m.vocab \/ ~m.vocab[a].abstract
+            THEN Fail(m, Err("config", 0, "", "", "implements names no abstract type of this schema"))
        ELSE IF \E n \in DOMAIN p.types : n \in DOMAIN m.vocab
             THEN Fail(m, Err("config", 0, "", "", "type name cannot be redefined"))
        ELSE LET merged == [n \in DOMAIN m.vocab \cup DOMAIN p.types |->
